@@ -255,8 +255,11 @@ static void push(const uint8_t *base, int len, int alt)
 
 static long max_exec_per_config = 400000;
 
+static long g_shard, g_nshards;
+
 static void explore_config(long cfg)
 {
+  int split = H->split_dfs;
   sp = 0;
   {
     uint8_t zero = 0;
@@ -271,7 +274,7 @@ static void explore_config(long cfg)
     struct node nd = stack[--sp];
     run_one(cfg, nd.choices, nd.len, 0);
     execs++;
-    account(cfg);
+    if (!(split && nd.len == 0 && g_shard != 0)) account(cfg);
     int want_sample = nsamples < 3 && hx_worker_id == 0 && (execs == 1 || (execs == 7 && S->ntrace > 0)) && S->outcome != OUT_INFRA;
     if (S->outcome == OUT_INFRA) {
       free(nd.choices);
@@ -316,6 +319,7 @@ static void explore_config(long cfg)
     for (int i = 0; i < ntrace; i++) base[i] = tr[i].chosen;
     /* push in reverse so that the earliest point / smallest alternative is explored first */
     for (int i = ntrace - 1; i >= nd.len; i--) {
+      if (split && nd.len == 0 && (i % g_nshards) != g_shard) continue;
       /* choices after the prefix are all 0 (default), so `used` is that of the prefix */
       for (int alt = tr[i].n - 1; alt >= 1; alt--) push(base, i, alt);
     }
@@ -432,7 +436,8 @@ static void write_stats(const char *path, long ncfg, long first, long step, doub
 {
   FILE *f = fopen(path, "w");
   if (!f) { perror(path); exit(2); }
-  fprintf(f, "{\"prop\":\"%s\",\"harness\":\"%s\",\"tier\":\"%s\",\"worker\":%d,\"configs_total\":%ld,\"shard_first\":%ld,\"shard_step\":%ld,",
+  fprintf(f, "{\"split_dfs\":%d,", H->split_dfs);
+  fprintf(f, "\"prop\":\"%s\",\"harness\":\"%s\",\"tier\":\"%s\",\"worker\":%d,\"configs_total\":%ld,\"shard_first\":%ld,\"shard_step\":%ld,",
           H->prop, H->name, hx_tier ? "thorough" : "quick", hx_worker_id, ncfg, first, step);
   fprintf(f, "\"configs_done\":%ld,\"capped_configs\":%ld,\"executions\":%ld,\"choice_points\":%ld,\"max_trace\":%d,"
              "\"distinct_observations\":%ld,\"infra_errors\":%ld,\"crashes\":%ld,\"replay_checked\":%ld,\"replay_mismatch\":%ld,"
@@ -567,9 +572,11 @@ int main(int argc, char **argv)
     hx_worker_prepare();
     if (H->worker_init) H->worker_init(hx_tier);
     long ncfg = H->nconfigs(hx_tier);
+    g_shard = shard;
+    g_nshards = nshards;
     for (long c = 0; c < ncfg; c++) {
       /* scatter configurations over the shards so that heavy neighbours do not pile up on one worker */
-      if ((long) ((((uint64_t) c * 0x9E3779B97F4A7C15ull) >> 33) % (uint64_t) nshards) != shard) continue;
+      if (!H->split_dfs && (long) ((((uint64_t) c * 0x9E3779B97F4A7C15ull) >> 33) % (uint64_t) nshards) != shard) continue;
       if (t_deadline > 0 && nowsec() > t_deadline) break;
       if (H->bfs_nops) explore_bfs(c); else explore_config(c);
     }
